@@ -22,7 +22,10 @@ CLAIM = dict(
           "stdlib/json/json.go (with fixes/C19-1 and C19-2) plus a Gallina re-statement of what encoding/json does for the values "
           "Zn hands it (RFC 8259 codec, objects as ordered member lists): parse(render v) = v for every JSON value (nested, strings "
           "over all Unicode scalar values incl. quotes, backslashes, controls, astral characters; any RFC number token); the "
-          "rendered text is in the RFC 8259 grammar (ABNF as inductive predicates); the parser never runs out of fuel; "
+          "rendered text is in the RFC 8259 grammar (ABNF as inductive predicates, written independently of parser and renderer); the model "
+          "parser DECIDES that grammar — for every text of Unicode scalar values, rejected <-> not a JSON text (soundness for texts of "
+          "code points, completeness for all texts; soundness fails above 0x10FFFF, proved too) — and returns the value the text denotes "
+          "(an independent denotation of grammar derivations, functional in the text); the parser never runs out of fuel; "
           "解析JSON(生成JSON(d)) = d with keys in keyOrder = document order for every JSON-representable dictionary (every finite "
           "double, through its exact decimal expansion and a correctly rounding decimal-to-double conversion); keys of any parsed "
           "document come out in document order; non-finite numbers, malformed JSON, out-of-range numbers and top-level "
@@ -34,8 +37,7 @@ CLAIM = dict(
                "validated by the differential run, not verified; the model renders a double by its exact decimal expansion whereas "
                "Go prints the shortest decimal that reads back (compared modulo number spelling: Go's spelling is read back by the "
                "model and by Python on every generated number); a Zn text is identified with its sequence of Unicode scalar values "
-               "(UTF-8 layer: C17); malformed = rejected by the model parser, cross-checked against Python's json on every case "
-               "(soundness of the parser w.r.t. the inductive grammar is not proved); nesting deeper than 10000 is rejected by "
+               "(UTF-8 layer: C17); malformed = not in the RFC 8259 grammar (C19_parser_decides_grammar), cross-checked against Python's json on every case; nesting deeper than 10000 is rejected by "
                "encoding/json's limit (not in the model, not judged); delivery of the exception signal to the handler is C09's "
                "subject and is observed here per case. No axioms."),
     technique="Coq proof (structural induction over JSON values, fuel-bounded recursive-descent parser with proved fuel bound, exact "
